@@ -279,13 +279,17 @@ Definition spec_tlv_area (b : octets) : octets :=
     length covering header and body and not exceeding the octets at hand
     (anything beyond is padding), TLV area made of whole TLVs. *)
 Definition spec_wellformed (b : octets) : bool :=
-  (34 <=? length b)%nat &&
-  match spec_body_len (spec_msg_type b) with
-  | None => false
-  | Some bl =>
-      let L := Z.to_nat (uint_be b 2 2) in
-      (34 + bl <=? L)%nat && (L <=? length b)%nat &&
-      match spec_tlvs (spec_tlv_area b) with Some _ => true | None => false end
-  end.
+  if (34 <=? length b)%nat then
+    match spec_body_len (spec_msg_type b) with
+    | None => false
+    | Some bl =>
+        let L := Z.to_nat (uint_be b 2 2) in
+        if (34 + bl <=? L)%nat then
+          if (L <=? length b)%nat then
+            match spec_tlvs (spec_tlv_area b) with Some _ => true | None => false end
+          else false
+        else false
+    end
+  else false.
 
 Definition octets_ok (b : octets) : bool := forallb (fun x => (0 <=? x) && (x <? 256)) b.
